@@ -7,6 +7,8 @@ import (
 	"math"
 	"math/rand"
 	"net"
+	"runtime"
+	"strings"
 	"testing"
 	"time"
 
@@ -174,6 +176,12 @@ type c06e2e struct {
 	Noise []time.Duration `json:"stale_noise_at_ns,omitempty"`
 	// SuspicionMult (0 = the default 4); 1 makes the number of expected confirmations negative
 	Mult int `json:"suspicion_mult,omitempty"`
+	// the confirmations carry an incarnation ABOVE the one the node holds for the target (the accusers have seen a
+	// refutation the node missed, and the target fell silent after it): they still only confirm
+	NewerConfs bool `json:"confirmations_at_newer_incarnation,omitempty"`
+	// the target's refutation is processed at the very moment the node's own timer has run out: after the timer's
+	// callback has decided to declare the target dead (its log line is the marker) and before it has done so
+	RefuteAtExpiry bool `json:"refutation_at_expiry,omitempty"`
 }
 
 const c06TInc = 3 // the target's incarnation, so that older claims about it exist
@@ -349,21 +357,46 @@ func runC06E2E(run *Run, seed int64, sc c06e2e) (out []*c01Result) {
 			}
 		}
 	}
+	fired := false
+	if sc.RefuteAtExpiry {
+		rig.V.Log.OnLine = func(text string) {
+			if fired || !strings.Contains(text, "Marking T as failed") {
+				return
+			}
+			fired = true
+			// the refutation is in the socket now; this goroutine (the timer callback, which holds no lock while it
+			// logs) keeps yielding - no virtual time passes - until the listener and the handler have had every
+			// chance to process it
+			rig.V.EP.Preload(tgt.EP.Addr, BuildPacket(rig.PCfg, Enc(TAlive, &WAlive{Incarnation: c06TInc + 1, Node: "T", Addr: []byte(tgt.EP.IP), Port: 7946, Vsn: DefaultVsn()}), rig.Rng))
+			for i := 0; i < 200000; i++ {
+				runtime.Gosched()
+				if i > 2000 && i%1000 == 0 {
+					if r := rig.V.Record("T"); r != nil && r.Incarnation == c06TInc+1 {
+						break
+					}
+				}
+			}
+		}
+	}
 	ended := ""
 	for _, a := range acts {
-		if !leaveAt.IsZero() {
+		if !leaveAt.IsZero() || fired {
 			break
 		}
 		if w := a.at - time.Since(start); w > 0 {
 			time.Sleep(w)
 		}
 		Settle(0)
-		if !leaveAt.IsZero() {
+		if !leaveAt.IsZero() || fired {
 			break
 		}
 		switch a.kind {
 		case "confirm":
-			peers[0].Send(Enc(TSuspect, &WSuspect{Incarnation: c06TInc, Node: "T", From: a.from}))
+			cinc := uint32(c06TInc)
+			if sc.NewerConfs {
+				cinc++
+			}
+			peers[0].Send(Enc(TSuspect, &WSuspect{Incarnation: cinc, Node: "T", From: a.from}))
 			script.Evs = append(script.Evs, confEv{time.Since(start), a.from})
 		case "noise":
 			var ni int
@@ -455,6 +488,30 @@ func runC06E2E(run *Run, seed int64, sc c06e2e) (out []*c01Result) {
 		}
 		if d > max2+2*time.Millisecond {
 			fail("resuspicion/too-late", "re-suspected target declared dead %v after the suspicion started (maximum %v)", d, max2)
+		}
+		return
+	}
+	if sc.RefuteAtExpiry {
+		for i := 0; i < 20000 && !fired; i++ {
+			Settle(5 * time.Millisecond)
+		}
+		rig.V.Log.OnLine = nil
+		if !fired {
+			fail("never-declared-dead", "suspicion started %v ago (max %v) and the node's own timer has not run out", time.Since(start), max)
+			return
+		}
+		Settle(time.Millisecond)
+		run.Cell("e2e-end", "refuted-at-expiry")
+		rec := rig.V.Record("T")
+		if rec == nil || rec.Incarnation != c06TInc+1 {
+			// the refutation was not processed inside the window (it would have been accepted at any other time): nothing to judge
+			run.Count("e2e_refute_at_expiry_not_processed_in_window", 1)
+			return
+		}
+		// (the target may legitimately be under a NEW suspicion already - a probe of it failing at this instant, or an
+		// accusation at the new incarnation - but it cannot have been declared dead)
+		if rec.State == memberlist.StateDead || rec.State == memberlist.StateLeft || !leaveAt.IsZero() {
+			fail("refuted-then-declared-dead", "the target's refutation (incarnation %d) was accepted after the node's timer had run out and before the node acted on it; the node then declared the refuted target dead: %s, leave event %v", c06TInc+1, recString(rec), !leaveAt.IsZero())
 		}
 		return
 	}
@@ -562,6 +619,10 @@ func TestC06(t *testing.T) {
 		for j, nn := 0, rng.Intn(4); j < nn; j++ {
 			sc.Noise = append(sc.Noise, time.Duration(150+rng.Intn(5000))*time.Millisecond+53*time.Microsecond)
 		}
+		sc.NewerConfs = rng.Intn(3) == 0
+		if i%4 == 0 || i%4 == 3 {
+			sc.RefuteAtExpiry = rng.Intn(3) == 0
+		}
 		run.Journal(id, fmt.Sprintf("%+v", sc))
 		var res []*c01Result
 		err := Bubble(t, func() { res = runC06E2E(run, run.Seed()*17+int64(i), sc) })
@@ -574,6 +635,25 @@ func TestC06(t *testing.T) {
 		}
 		if i == 1 {
 			run.Sample(sc)
+		}
+	}
+	for i := 0; i < run.Pick(24, 2400); i++ {
+		id := fmt.Sprintf("hearsay/%d", i)
+		if !run.Mine(i) || !run.Want(id) {
+			continue
+		}
+		rng := run.RNG(id)
+		nT := 2 + i%3
+		peersN := []int{0, 2, 5}[rng.Intn(3)]
+		run.Journal(id, fmt.Sprintf("targets=%d peers=%d", nT, peersN))
+		var res []*c01Result
+		err := Bubble(t, func() { res = runC06Hearsay(run, run.Seed()*83+int64(i), nT, peersN, rng) })
+		if err != nil {
+			res = append(res, &c01Result{"C06/bubble", err.Error()})
+		}
+		run.Eval(int64(nT))
+		for _, r := range res {
+			run.Violation(id, r.Key, r.What, map[string]any{"targets": nT, "peers": peersN})
 		}
 	}
 	for i := 0; i < run.Pick(12, 1200); i++ {
@@ -596,6 +676,7 @@ func TestC06(t *testing.T) {
 	}
 	if !run.Replaying() {
 		run.Require("e2e-end|left-and-returned-then-timer|peers=1", "e2e-end|left-and-returned-then-timer|peers=3")
+		run.Require("e2e-end|refuted-at-expiry", "hearsay|entries=3")
 		run.Require("e2e-end|refuted", "e2e-end|resuspected-then-timer", "e2e-end|foreign-dead", "e2e-prehistory|rejoin-newaddr", "e2e-prehistory|come-and-go", "e2e-prehistory|meta-update", "e2e-prehistory|addr-conflict")
 	}
 	run.Complete()
@@ -715,6 +796,114 @@ func runC06Return(run *Run, seed int64, peersN int, returnAt time.Duration) (out
 	}
 	if d := died.Sub(second.Start); d < want-2*time.Millisecond || d > want+2*time.Millisecond {
 		fail("resuspicion/off-schedule", "the target left at +%v and came back from another address at the same incarnation; re-suspected at +%v with no confirmations, it was declared dead %v later, the schedule says %v (k=%d min=%v max=%v): the first suspicion's timer was still in effect", returnAt, second.Start.Sub(first.Start), d, want, second.K, second.Min, second.Max)
+	}
+	return
+}
+
+// runC06Hearsay: one state exchange reports several members the node holds alive as suspect or dead. Each report
+// only starts a local suspicion (hearsay never kills); every one of these suspicions is the node's own and must
+// run its course: with nobody confirming or refuting, each target is declared dead exactly at the unconfirmed
+// deadline of its own timer - all of them, not only the last one reported.
+func runC06Hearsay(run *Run, seed int64, nT, peersN int, rng *rand.Rand) (out []*c01Result) {
+	fail := func(key, f string, a ...any) {
+		out = append(out, &c01Result{"C06/hearsay/" + key, fmt.Sprintf(f, a...)})
+	}
+	rig, err := NewRig(RigOpts{Seed: seed, Spec: NodeSpec{Name: "V", IP: "10.9.9.9", Mutate: func(cf *memberlist.Config) {
+		cf.ProbeInterval = time.Second
+		cf.ProbeTimeout = 500 * time.Millisecond
+		cf.PushPullInterval = 0
+		cf.GossipInterval = 200 * time.Millisecond
+		cf.IndirectChecks = 0
+		cf.DisableTcpPings = true
+	}}})
+	if err != nil {
+		fail("harness/create", "%v", err)
+		return
+	}
+	defer rig.Close()
+	x := rig.AddPeer("x", "10.9.1.1", 7946)
+	x.AutoAck = true
+	rig.Introduce(x, 1)
+	for i := 0; i < peersN; i++ {
+		p := rig.AddPeer(fmt.Sprintf("p%d", i), fmt.Sprintf("10.9.1.%d", i+2), 7946)
+		p.AutoAck = true
+		rig.Introduce(p, 1)
+	}
+	var tg []*FakePeer
+	for i := 0; i < nT; i++ {
+		tp := rig.AddPeer(fmt.Sprintf("T%d", i), fmt.Sprintf("10.9.2.%d", i+1), 7946)
+		tp.AutoAck = true // they answer probes (the node has no evidence of its own); they just never hear of the accusation
+		tg = append(tg, tp)
+		rig.Introduce(tp, 2)
+	}
+	Settle(time.Millisecond)
+	leaves := map[string]time.Time{}
+	rig.V.Ev.mu.Lock()
+	rig.V.Ev.OnEvent = func(ev EvRec) {
+		if ev.Kind == "leave" {
+			if _, ok := leaves[ev.Name]; !ok {
+				leaves[ev.Name] = ev.At
+			}
+		}
+	}
+	rig.V.Ev.mu.Unlock()
+	nodes := []WPushNodeState{x.Self(1)}
+	for i, tp := range tg {
+		st := SDead
+		if (i+int(seed))%2 == 0 {
+			st = SSuspect
+		}
+		nodes = append(nodes, WPushNodeState{Name: tp.Name, Addr: []byte(tp.EP.IP), Port: 7946, Incarnation: 2, State: st, Vsn: DefaultVsn()})
+	}
+	// the fake targets must not see (and so never refute) the accusation: they are scripted peers that only ack
+	if _, _, err := x.PushPull(false, nodes, nil); err != nil {
+		fail("harness/pushpull", "%v", err)
+		return
+	}
+	Settle(time.Millisecond)
+	m := rig.V.ML()
+	type st struct {
+		info memberlist.VerifSuspicionInfo
+	}
+	started := map[string]memberlist.VerifSuspicionInfo{}
+	for _, tp := range tg {
+		si, ok := m.VerifSuspicionOf(tp.Name)
+		if !ok {
+			fail("not-suspected", "a state exchange reported %s as suspect/dead; no local suspicion was started (record %s)", tp.Name, recString(rig.V.Record(tp.Name)))
+			return
+		}
+		if rec := rig.V.Record(tp.Name); rec == nil || rec.State != memberlist.StateSuspect {
+			fail("killed-by-hearsay", "a state exchange reported %s as suspect/dead and the node holds it as %s", tp.Name, recString(rec))
+			return
+		}
+		started[tp.Name] = si
+	}
+	run.Cell("hearsay", fmt.Sprintf("entries=%d", nT))
+	var maxWait time.Duration
+	for _, si := range started {
+		if si.Max > maxWait {
+			maxWait = si.Max
+		}
+	}
+	for w := time.Duration(0); w < maxWait+time.Second; w += 50 * time.Millisecond {
+		Settle(50 * time.Millisecond)
+	}
+	for _, tp := range tg {
+		si := started[tp.Name]
+		want := suspicionT(0, si.K, si.Min, si.Max)
+		at, ok := leaves[tp.Name]
+		if !ok {
+			fail("never-declared-dead", "%d members were reported suspect/dead in one state exchange; the suspicion of %s started then (k=%d min=%v max=%v) and %v later it is still listed as %s (declared dead so far: %v)", nT, tp.Name, si.K, si.Min, si.Max, time.Since(si.Start), recString(rig.V.Record(tp.Name)), len(leaves))
+			return
+		}
+		if d := at.Sub(si.Start); d < want-2*time.Millisecond || d > want+2*time.Millisecond {
+			fail("off-schedule", "suspicion of %s (started by a state exchange, nobody confirmed): declared dead %v after it started, the schedule says %v (k=%d min=%v max=%v)", tp.Name, d, want, si.K, si.Min, si.Max)
+			return
+		}
+	}
+	rig.C.CheckQuiescent()
+	for _, p := range rig.C.Problems() {
+		out = append(out, &c01Result{p.Key, p.What})
 	}
 	return
 }
